@@ -29,6 +29,7 @@ Apply(s, st) ==
     [] st.op = "rm" -> RemovePath(s, st.path)
     [] st.op = "swapout" -> SwapOut(s, st.path)
     [] st.op = "swapin" -> SwapIn(s, st.path)
+    [] st.op = "restart" -> Restart(s)
 
 \* U.follow[i] = the set of step indices allowed after step i (0 = at the start); the generator of
 \* the alphabet uses it to place an obstacle, the failing call, the removal and the retry in order
